@@ -108,6 +108,10 @@ func dumpString(r *rand.Rand) string {
 		unit := pick(r, []string{"a", "xy ", "中", "é"})
 		return strings.Repeat(unit, n/len(unit)+1)
 	}
+	if chance(r, 0.1) {
+		// punctuation of JSON itself inside a string (none of it needs an escape)
+		return randFrom(r, []string{",}", ",]", "{", "}", "[", "]", ":", ",", "x", " ", "null", "{x,}", "[1,2,]"}, 1, 4)
+	}
 	var sb strings.Builder
 	for i, n := 0, 1+r.IntN(5); i < n; i++ {
 		sb.WriteRune(pick(r, dumpRunes))
